@@ -62,6 +62,10 @@ package utils
 //@   ensures one_more_fraction_digit_is_one_zero [C12]: to == precision + 1 && digits <= 900000000000000000 && digits >= -900000000000000000 ==> r1 && r0 == digits * 10
 //@   loop 0 invariant decimalNumber(digits, precision) == decimalNumber($entry_digits, $entry_precision) && precision >= $entry_precision && ($entry_precision <= to ==> precision <= to) && ($entry_precision >= to ==> precision == $entry_precision)
 //@   loop 0 invariant (precision == $entry_precision ==> digits == $entry_digits) && (precision == $entry_precision + 1 ==> digits == $entry_digits * 10)
+// termination in a number of steps the sender of a value cannot choose: a number that is not zero leaves the 64 bit
+// range after at most 19 multiplications (zero is answered at once)
+//@   loop 0 invariant digits != 0 && digits <= 9223372036854775807 && digits >= -9223372036854775808
+//@   loop 0 decreases ite(digits > 0, 9223372036854775807 - digits, digits + 9223372036854775808)
 //@ func equalDecimal64
 //@   props C12 C15 C09
 //@   pure
